@@ -554,7 +554,7 @@ class C08(Prop):
         res = Result(rule="history = (contexts, publishers, receivers, steps of one main-lane operation racing with subscriber lanes, "
                           "scheduling policy) from the seeded PRNG; after each step: drain, table dump, probe publications; non-trivial = "
                           "at least one removal/connect/disconnect/stop step and one subscriber lane; distinct by (seed, history)")
-        n = ctx.scale(260, 4000)
+        n = ctx.scale(550, 5000)
         cases = [(ctx.rng.randrange(1 << 30), gen_spec(ctx.rng, not ctx.quick), None, False) for _ in range(n)]
         for i in range(0, len(cases), 50):
             self._run_batch(ctx, cases[i:i + 50], res, "random")
